@@ -13,6 +13,7 @@ use domain::zonefile::inplace::{Entry, Zonefile};
 use names::*;
 use octseq::Parser;
 use serde_json::{json, Value};
+use std::ops::{Bound, RangeBounds};
 use std::str::FromStr;
 use verif_harness::common::*;
 
@@ -474,8 +475,12 @@ fn parsed_case(input: &Value) -> Value {
         Err(_) => (false, false, false),
     };
     let chk = |o: &[u8]| if valid_abs(o) { json_bytes(o) } else { json!(["invalid", json_bytes(o)]) };
+    let (psuffixes, psf, ppar) = parsed_walks(&pn);
     json!({
         "ok": true,
+        "psuffixes": psuffixes,
+        "psf": psf,
+        "ppar": ppar,
         "labels": chk(&labels),
         "compose": if compose_ok { chk(&composed) } else { json!("err") },
         "flat": chk(flat.as_slice()),
@@ -486,6 +491,203 @@ fn parsed_case(input: &Value) -> Value {
         "disp": disp,
         "len": pn.compose_len(),
         "end": parser.pos(),
+    })
+}
+
+// --- every slicing entry point with every form of range bounds ------------
+
+#[derive(PartialEq, Clone)]
+enum Cut {
+    Refused,
+    Val(Vec<u8>),
+    Disagree,
+}
+
+fn catch<T, F: FnOnce() -> T>(f: F) -> Option<T> {
+    std::panic::catch_unwind(std::panic::AssertUnwindSafe(f)).ok()
+}
+
+fn merge(rs: Vec<Option<Vec<u8>>>) -> Cut {
+    let first = rs[0].clone();
+    if rs.iter().any(|r| *r != first) {
+        return Cut::Disagree;
+    }
+    match first {
+        None => Cut::Refused,
+        Some(v) => Cut::Val(v),
+    }
+}
+
+fn abs_forms<R: RangeBounds<usize> + Clone>(n: &N, r: R) -> Vec<Option<Vec<u8>>> {
+    vec![
+        catch(|| n.slice(r.clone()).as_slice().to_vec()),
+        catch(|| n.range(r.clone()).as_slice().to_vec()),
+        catch(|| n.for_slice().slice(r.clone()).as_slice().to_vec()),
+    ]
+}
+
+fn rel_forms<R: RangeBounds<usize> + Clone>(n: &Rn, r: R) -> Vec<Option<Vec<u8>>> {
+    vec![
+        catch(|| n.slice(r.clone()).as_slice().to_vec()),
+        catch(|| n.range(r.clone()).as_slice().to_vec()),
+        catch(|| n.for_slice().slice(r.clone()).as_slice().to_vec()),
+    ]
+}
+
+fn bound_of(b: (char, usize)) -> Bound<usize> {
+    match b.0 {
+        'I' => Bound::Included(b.1),
+        'E' => Bound::Excluded(b.1),
+        _ => Bound::Unbounded,
+    }
+}
+
+macro_rules! all_spellings {
+    ($forms:ident, $n:expr, $lo:expr, $hi:expr) => {{
+        let (lo, hi) = ($lo, $hi);
+        let mut rs = $forms($n, (bound_of(lo), bound_of(hi)));
+        match (lo.0, hi.0) {
+            ('I', 'E') => rs.extend($forms($n, lo.1..hi.1)),
+            ('I', 'U') => rs.extend($forms($n, lo.1..)),
+            ('U', 'E') => rs.extend($forms($n, ..hi.1)),
+            ('U', 'U') => rs.extend($forms($n, ..)),
+            ('I', 'I') => rs.extend($forms($n, lo.1..=hi.1)),
+            ('U', 'I') => rs.extend($forms($n, ..=hi.1)),
+            _ => {}
+        }
+        merge(rs)
+    }};
+}
+
+fn code(b: (char, usize)) -> (String, i64) {
+    (b.0.to_string(), if b.0 == 'U' { -1 } else { b.1 as i64 })
+}
+
+/// ParsedName: iter_suffixes, repeated split_first, repeated parent
+fn parsed_walks(pn: &ParsedName<&[u8]>) -> (Vec<Value>, Vec<Value>, Vec<Value>) {
+    let chk_abs = |o: &[u8]| if valid_abs(o) { json_bytes(o) } else { json!(["invalid", json_bytes(o)]) };
+    let psuffixes: Vec<Value> = pn.iter_suffixes().map(|s| chk_abs(s.to_name::<Vec<u8>>().as_slice())).collect();
+    let mut psf = vec![];
+    let mut cur = pn.clone();
+    loop {
+        let first = match cur.split_first() {
+            Some(l) => l.as_slice().to_vec(),
+            None => break,
+        };
+        let rest: N = cur.to_name();
+        psf.push(json!([json_bytes(&first), chk_abs(rest.as_slice())]));
+        if psf.len() > 200 {
+            break;
+        }
+    }
+    let mut ppar = vec![];
+    let mut cur = pn.clone();
+    while cur.parent() {
+        let rest: N = cur.to_name();
+        ppar.push(chk_abs(rest.as_slice()));
+        if ppar.len() > 200 {
+            break;
+        }
+    }
+    (psuffixes, psf, ppar)
+}
+
+fn ranges_case(input: &Value) -> Value {
+    let wire = bytes_of(&input["wire"]);
+    let idx: Vec<usize> = input["idx"].as_array().map(|a| a.iter().map(|x| x.as_u64().unwrap_or(0) as usize).collect()).unwrap_or_default();
+    let name: N = match Name::from_octets(wire.clone()) {
+        Ok(n) => n,
+        Err(_) => return json!({"bad_case": true}),
+    };
+    let rel: Rn = name.clone().into_relative();
+    let mut bl: Vec<(char, usize)> = vec![('U', 0)];
+    bl.extend(idx.iter().map(|i| ('I', *i)));
+    bl.extend(idx.iter().map(|i| ('E', *i)));
+    let mut abs = vec![];
+    let mut relt = vec![];
+    for lo in &bl {
+        for hi in &bl {
+            let (lc, la) = code(*lo);
+            let (hc, ha) = code(*hi);
+            match all_spellings!(abs_forms, &name, *lo, *hi) {
+                Cut::Refused => {}
+                Cut::Val(v) if valid_rel(&v) => abs.push(json!([lc, la, hc, ha, json_bytes(&v)])),
+                Cut::Val(v) => abs.push(json!([lc, la, hc, ha, ["invalid_relative_name", json_bytes(&v)]])),
+                Cut::Disagree => abs.push(json!([lc, la, hc, ha, "spellings_disagree"])),
+            }
+            match all_spellings!(rel_forms, &rel, *lo, *hi) {
+                Cut::Refused => {}
+                Cut::Val(v) if valid_rel(&v) => relt.push(json!([lc, la, hc, ha, json_bytes(&v)])),
+                Cut::Val(v) => relt.push(json!([lc, la, hc, ha, ["invalid_relative_name", json_bytes(&v)]])),
+                Cut::Disagree => relt.push(json!([lc, la, hc, ha, "spellings_disagree"])),
+            }
+        }
+    }
+    // one-index entry points
+    let mut from = vec![];
+    let mut rcut = vec![];
+    for i in &idx {
+        let i = *i;
+        let rights = vec![
+            catch(|| name.slice_from(i).as_slice().to_vec()),
+            catch(|| name.range_from(i).as_slice().to_vec()),
+            catch(|| name.split(i).1.as_slice().to_vec()),
+            catch(|| name.for_slice().slice_from(i).as_slice().to_vec()),
+        ];
+        let lefts = vec![
+            catch(|| name.split(i).0.as_slice().to_vec()),
+            catch(|| name.clone().truncate(i).as_slice().to_vec()),
+        ];
+        match (merge(rights), merge(lefts)) {
+            (Cut::Refused, Cut::Refused) => {}
+            (Cut::Val(r), Cut::Val(l)) if valid_abs(&r) && valid_rel(&l) => from.push(json!([i, json_bytes(&l), json_bytes(&r)])),
+            _ => from.push(json!([i, "inconsistent_or_invalid"])),
+        }
+        let rr = vec![catch(|| rel.split(i).1.as_slice().to_vec())];
+        let rl = vec![
+            catch(|| rel.split(i).0.as_slice().to_vec()),
+            catch(|| {
+                let mut t = rel.clone();
+                t.truncate(i);
+                t.as_slice().to_vec()
+            }),
+        ];
+        match (merge(rr), merge(rl)) {
+            (Cut::Refused, Cut::Refused) => {}
+            (Cut::Val(r), Cut::Val(l)) if valid_rel(&r) && valid_rel(&l) => rcut.push(json!([i, json_bytes(&l), json_bytes(&r)])),
+            _ => rcut.push(json!([i, "inconsistent_or_invalid"])),
+        }
+    }
+    let chk_abs = |o: &[u8]| if valid_abs(o) { json_bytes(o) } else { json!(["invalid", json_bytes(o)]) };
+    let suffixes: Vec<Value> = name.iter_suffixes().map(|s| chk_abs(s.as_slice())).collect();
+    // the same name read through ParsedName
+    let mut parser = Parser::from_ref(wire.as_slice());
+    let pn = ParsedName::parse(&mut parser).expect("flat name parses");
+    let (psuffixes, psf, ppar) = parsed_walks(&pn);
+    json!({
+        "abs": abs,
+        "rel": relt,
+        "from": from,
+        "rcut": rcut,
+        "suffixes": suffixes,
+        "psuffixes": psuffixes,
+        "ends": [name.label_count(), json_bytes(name.first().as_slice()), json_bytes(name.last().as_slice())],
+        "rends": match (rel.first(), rel.last()) {
+            (Some(f), Some(l)) => json!([rel.label_count(), json_bytes(f.as_slice()), json_bytes(l.as_slice())]),
+            (None, None) => json!([rel.label_count(), "none", "none"]),
+            _ => json!("first_last_disagree"),
+        },
+        "sf": match name.split_first() {
+            Some((l, rest)) => json!([json_bytes(l.as_slice()), chk_abs(rest.as_slice())]),
+            None => json!(["none"]),
+        },
+        "rsf": match rel.split_first() {
+            Some((l, rest)) if valid_rel(rest.as_slice()) => json!([json_bytes(l.as_slice()), json_bytes(rest.as_slice())]),
+            Some(_) => json!(["invalid"]),
+            None => json!(["none"]),
+        },
+        "psf": psf,
+        "ppar": ppar,
     })
 }
 
@@ -500,6 +702,7 @@ fn repr(k: &str, input: &Value) -> Value {
         "zone" => zone_case(input),
         "zscan" => zscan_case(input),
         "parsed" => parsed_case(input),
+        "ranges" => ranges_case(input),
         _ => json!({"bad_case": true}),
     }
 }
